@@ -271,6 +271,10 @@ func RenameMailboxPerUser(db *sql.DB, userID int64, oldName, newName string) err
 		parts := strings.Split(newName, "/")
 		for i := 0; i < len(parts)-1; i++ {
 			parentPath := strings.Join(parts[:i+1], "/")
+			// INBOX exists under every spelling (it is case-insensitive): never create "Inbox" next to it
+			if strings.EqualFold(parentPath, "INBOX") {
+				continue
+			}
 			exists, err := MailboxExistsPerUser(db, userID, parentPath)
 			if err != nil {
 				return err
